@@ -3,6 +3,7 @@ package zygo
 import (
 	"fmt"
 	"reflect"
+	"sort"
 	"time"
 )
 
@@ -397,12 +398,19 @@ func TypeListFunction(env *Zlisp, name string, args []Sexp) (Sexp, error) {
 }
 
 func (env *Zlisp) ImportBaseTypes() {
-	for _, e := range GoStructRegistry.Builtin {
-		env.AddGlobal(e.RegisteredName, e)
-	}
-
-	for _, e := range GoStructRegistry.Userdef {
-		env.AddGlobal(e.RegisteredName, e)
+	// AddGlobal interns the type names, so walk the registry in sorted
+	// order: symbol numbers (which symbol comparison exposes to scripts)
+	// must not depend on Go's randomised map iteration order.
+	for _, m := range []map[string]*RegisteredType{GoStructRegistry.Builtin, GoStructRegistry.Userdef} {
+		names := make([]string, 0, len(m))
+		for name := range m {
+			names = append(names, name)
+		}
+		sort.Strings(names)
+		for _, name := range names {
+			e := m[name]
+			env.AddGlobal(e.RegisteredName, e)
+		}
 	}
 }
 
